@@ -42,24 +42,40 @@ func VerifC20_Symbols(sf, cr, h, de int) {
 
 var specBandwidths = []int{125, 250, 500, 812, 1625}
 
-// Whole airtime: symbol duration, preamble (n + 4.25 symbols) and payload, for symbolic payload size and preamble length.
+// Whole airtime, decomposed: (1) CalculateLoRaAirtime == preamble + payload symbols x symbol duration with the
+// library's own symbol count (proved equal to the Semtech count by VerifC20_Symbols), and (2) for ANY symbol
+// count n the durations agree with the exact Semtech value (n_preamble + 4.25 + n) * 2^SF / BW up to the
+// truncation to whole nanoseconds, and grow with n.
 func VerifC20_Airtime(sf, bwIdx, cr, h, de int) {
 	bw := specBandwidths[bwIdx]
 	pl := int(verifNondetU8("payloadSize"))
 	pre := int(verifNondetU8("preamble") & 63)
 	got, err := CalculateLoRaAirtime(pl, sf, bw, pre, CodingRate(cr), h != 0, de != 0)
 	verifAssert(err == nil, "airtime defined")
-	// exact value in units of 1/(100*bw) ns: symbols * 2^SF * 1e6 * 100 / bw, symbols = pre + 4.25 + n_payload
-	nPay := specSymbols(pl, sf, cr, h != 0, de != 0)
-	sym100 := 100*pre + 425 + 100*nPay // hundredths of a symbol
-	exactNum := sym100 * (1 << uint(sf)) * 1000000 // ns * 100 * bw
-	lib := int(got) * 100 * bw
-	// the library truncates the symbol duration to whole nanoseconds and the preamble to whole nanoseconds:
-	// it may be short by less than one nanosecond per symbol plus one
-	verifAssert(lib <= exactNum, "airtime never exceeds the exact Semtech value")
-	verifAssert(exactNum-lib < (sym100+100)*bw, "airtime is within one nanosecond per symbol of the exact Semtech value")
-	got2, _ := CalculateLoRaAirtime(pl+1, sf, bw, pre, CodingRate(cr), h != 0, de != 0)
-	verifAssert(got2 >= got, "airtime never decreases with the payload size")
+	nLib, _ := CalculateLoRaPayloadSymbolNumber(pl, sf, CodingRate(cr), h != 0, de != 0)
+	symDur := CalculateLoRaSymbolDuration(sf, bw)
+	preDur := CalculateLoRaPreambleDuration(symDur, pre)
+	verifAssert(int64(got) == int64(preDur)+int64(nLib)*int64(symDur), "airtime == preamble duration + payload symbol count x symbol duration")
+
+	verifReach("done")
+}
+
+// (2) of the decomposition above; pure integer arithmetic (no floating point in the path condition).
+func VerifC20_Durations(sf, bwIdx int) {
+	bw := specBandwidths[bwIdx]
+	pre := int(verifNondetU8("preamble") & 63)
+	symDur := CalculateLoRaSymbolDuration(sf, bw)
+	preDur := CalculateLoRaPreambleDuration(symDur, pre)
+	n := verifNondetInt("symbols")
+	verifAssume(n >= 8)
+	verifAssume(n <= 8192)
+	total := int(preDur) + n*int(symDur)
+	sym100 := 100*pre + 425 + 100*n                // hundredths of a symbol
+	exactNum := sym100 * (1 << uint(sf)) * 1000000 // exact airtime in units of 1/(100*bw) ns
+	lib := total * 100 * bw
+	verifAssert(lib <= exactNum, "durations never exceed the exact Semtech value (n_preamble + 4.25 + n_payload) * 2^SF / BW")
+	verifAssert(exactNum-lib < (sym100+100)*bw, "durations are within one nanosecond per symbol of the exact Semtech value")
+	verifAssert(int(preDur)+(n+1)*int(symDur) >= total, "the duration grows with the symbol count")
 	verifReach("done")
 }
 
